@@ -219,9 +219,11 @@ def _check_update(ctx, upd, assess_jit, prog, tr0, ch0, ref_old, vals0, args0, v
             {**d, "weight": gfi.fnum(w), "reference_weight": want_w, "ref_new": ref_new.total, "ref_old": ref_old.total, "tol": t},
         )
         return False
-    if not gfi.args_recorded(tr1, args1):
-        ctx.violation("update|get_args-not-new-args", d)
-        return False
+    ap = gfi.args_problem(tr1, args1)
+    if ap is not None:
+        ctx.violation("update|get_args-not-new-args" + ap, d)
+        if not ap.endswith("recorded-per-lane"):
+            return False
     # discard holds the previously visible values of the overwritten addresses
     ld = R.flat_leaves(R.to_numpy(discard)) if isinstance(discard, dict) else {}
     for p in want:
